@@ -1,7 +1,6 @@
 package c04
 
 import (
-	"os"
 	"bytes"
 	"encoding/base64"
 	"encoding/json"
@@ -11,6 +10,7 @@ import (
 	"net/http"
 	"net/http/httptest"
 	"net/url"
+	"os"
 	"path"
 	"sort"
 	"strings"
